@@ -467,6 +467,8 @@ pub fn run(ctx: &mut Ctx, replay: Option<&str>) {
         ctx.count(&format!("base.disclosures.{}", match h.pres.disclosures.len() { 0 => "0", 1 => "1", _ => "2+" }));
         attacks.extend(list);
     }
+    attacks.extend(spelling_matrix(ctx));
+    long_presentations(ctx);
     for chunk in attacks.chunks(4000) {
         let outs = run_attacks_out(ctx, chunk);
         for (a, o) in chunk.iter().zip(&outs) {
@@ -478,6 +480,99 @@ pub fn run(ctx: &mut Ctx, replay: Option<&str>) {
     for pick in ["replay-onto-another-credential", "sd_hash-over-all-issued-disclosures", "typ-absent"] {
         if let Some(a) = attacks.iter().find(|a| a.name.starts_with(pick)) {
             ctx.sample(json!({"attack": a.name, "fmt": a.args.fmt.name(), "input": a.args.input, "aud": a.args.aud, "nonce": a.args.nonce}));
+        }
+    }
+}
+
+/// hand-signed key-bound presentation of a small credential
+fn hand_kb(fmt: Fmt, holder: KeyId, claims_extra: Value, disclosures: &[String], kb_aud: &Value, kb_nonce: &Value) -> (String, String) {
+    let mut payload = json!({"iss": "https://issuer.example", "exp": now() + 100000, "_sd_alg": "sha-256", "cnf": {"jwk": holder.jwk_json().unwrap()}, "_sd": disclosures.iter().map(|d| hash(d)).collect::<Vec<_>>()});
+    if let (Some(m), Some(e)) = (payload.as_object_mut(), claims_extra.as_object()) {
+        for (k, v) in e {
+            m.insert(k.clone(), v.clone());
+        }
+    }
+    let jwt = sign_payload(&payload, KeyId::IssuerEc);
+    let sd_hash = hash(&Parts { jwt: jwt.clone(), disclosures: disclosures.to_vec(), kb: None }.compact());
+    let kb = sign_token(&json!({"alg": holder.alg(), "typ": "kb+jwt"}), &json!({"nonce": kb_nonce, "aud": kb_aud, "iat": now(), "sd_hash": sd_hash}), holder, holder.alg());
+    (Parts { jwt: jwt.clone(), disclosures: disclosures.to_vec(), kb: Some(kb.clone()) }.render(fmt), kb)
+}
+
+/// the verifier's expected audience / nonce against the KB-JWT's, over a family of near spellings in BOTH directions: accepted
+/// exactly on the diagonal
+fn spelling_matrix(ctx: &mut Ctx) -> Vec<Attack> {
+    let auds = ["https://verifier.example.org", "https://verifier.example.org/", "https://verifier.example.org//", "https://VERIFIER.example.org", "HTTPS://verifier.example.org", "https://verifier.example.org:443",
+                "https://verifier.example.org/#", "https://verifier.example.org/?", "https://verifier.example.org.", " https://verifier.example.org", "https://verifier.example.org ", "http://verifier.example.org",
+                "verifier.example.org", "https://verifier.example.org/a/..", "https://verifier.example.org/%2F", "did:web:verifier.example.org", "did:web:verifier.example.org/", "urn:v:1", "urn:v:1/", "x", "x/", "", "/"];
+    let nonces = ["n-0123456789", "n-0123456789 ", "N-0123456789", "n-0123456789\n", "n-012345678", "n-01234567890", "", " ", "0", "00", "n-0123456789/", "n\u{2d}0123456789", "1234", "1234.0", "null"];
+    let mut out = vec![];
+    let d = b64_json(&json!(["c2FsdC1mb3ItbWF0cml4", "given_name", "Erika"]));
+    let every = ctx.tier == Tier::Thorough;
+    let mut k = 0usize;
+    for (what, list) in [("aud", &auds[..]), ("nonce", &nonces[..])] {
+        for (i, x) in list.iter().enumerate() {
+            for (j, y) in list.iter().enumerate() {
+                k += 1;
+                // quick: the diagonal, the neighbours and a rotating sample of the rest
+                if !every && i != j && (i as i64 - j as i64).abs() != 1 && (i * 7 + j * 3 + ctx.seed as usize) % 5 != 0 {
+                    continue;
+                }
+                let fmt = if k % 2 == 0 { Fmt::Compact } else { Fmt::Json };
+                let holder = if k % 3 == 0 { KeyId::HolderEd } else { KeyId::HolderEc };
+                let (kb_aud, kb_nonce, exp_aud, exp_nonce) = if what == "aud" { (json!(y), json!("n-fixed"), x.to_string(), "n-fixed".to_string()) } else { (json!("https://verifier.example.org"), json!(y), "https://verifier.example.org".to_string(), x.to_string()) };
+                let (input, _) = hand_kb(fmt, holder, json!({"sub": "s"}), &[d.clone()], &kb_aud, &kb_nonce);
+                out.push(Attack { name: format!("{}-spelling-{}: expected {:?} presented {:?}", what, if i == j { "same" } else { "differs" }, x, y),
+                                  args: VerifyArgs { input, fmt, resolver: Resolver::always(KeyId::IssuerEc), aud: Some(exp_aud), nonce: Some(exp_nonce) },
+                                  expect: if i == j { Expect::Accept } else { Expect::Reject }, origin: json!({"hand_built": "spelling matrix", "what": what, "expected": x, "presented": y}), nontrivial: true });
+            }
+        }
+    }
+    ctx.count_n("spelling_matrix.cases", out.len());
+    out
+}
+
+/// key binding over LONG presentations (a large visible claim, large disclosures, many disclosures): the KB-JWT made for one
+/// disclosure list replayed with one more / one fewer / reordered / altered at the very end. Judged on the implementation alone
+fn long_presentations(ctx: &mut Ctx) {
+    let sizes: Vec<(usize, usize, usize)> = if ctx.tier == Tier::Quick { vec![(70_000, 40, 3), (10, 70_000, 3), (10, 30, 2500), (300_000, 300_000, 5)] } else { vec![(70_000, 40, 3), (10, 70_000, 3), (10, 30, 2500), (300_000, 300_000, 5), (66_000, 10, 1), (2_000_000, 10, 4), (10, 10, 20_000)] };
+    for (si, (visible_len, value_len, n_disc)) in sizes.into_iter().enumerate() {
+        let fmt = if si % 2 == 0 { Fmt::Compact } else { Fmt::Json };
+        let holder = if si % 2 == 0 { KeyId::HolderEc } else { KeyId::HolderEd };
+        let all: Vec<String> = (0..n_disc + 1).map(|k| b64_json(&json!([format!("c2FsdC1sb25n{}", k), format!("claim{}", k), "v".repeat(value_len) + &k.to_string()]))).collect();
+        let shown: Vec<String> = all[..n_disc].to_vec();
+        let extra = json!({"portrait": "P".repeat(visible_len)});
+        // the payload lists every digest, the presentation shows all but the last disclosure
+        let mut payload = json!({"iss": "https://issuer.example", "exp": now() + 100000, "_sd_alg": "sha-256", "cnf": {"jwk": holder.jwk_json().unwrap()}, "_sd": all.iter().map(|d| hash(d)).collect::<Vec<_>>()});
+        payload["portrait"] = extra["portrait"].clone();
+        let jwt = sign_payload(&payload, KeyId::IssuerEc);
+        let sd_hash = hash(&Parts { jwt: jwt.clone(), disclosures: shown.clone(), kb: None }.compact());
+        let kb = sign_token(&json!({"alg": holder.alg(), "typ": "kb+jwt"}), &json!({"nonce": "n-1", "aud": "https://verifier.example", "iat": now(), "sd_hash": sd_hash}), holder, holder.alg());
+        let mut variants: Vec<(&str, Vec<String>, bool)> = vec![("control-as-bound", shown.clone(), true), ("one-more-at-the-end", all.clone(), false), ("one-fewer-at-the-end", shown[..n_disc - 1].to_vec(), false)];
+        if n_disc >= 2 {
+            let mut sw = shown.clone();
+            sw.swap(n_disc - 1, n_disc - 2);
+            variants.push(("last-two-swapped", sw, false));
+            let mut sw = shown.clone();
+            sw.swap(0, 1);
+            variants.push(("first-two-swapped", sw, false));
+            let mut rep = shown.clone();
+            rep[n_disc - 1] = all[n_disc].clone();
+            variants.push(("last-replaced-by-the-withheld-one", rep, false));
+        }
+        for (name, ds, ok) in variants {
+            let input = Parts { jwt: jwt.clone(), disclosures: ds, kb: Some(kb.clone()) }.render(fmt);
+            let r = verify(&VerifyArgs { input: input.clone(), fmt, resolver: Resolver::always(KeyId::IssuerEc), aud: Some("https://verifier.example".into()), nonce: Some("n-1".into()) });
+            ctx.impl_calls += 1;
+            ctx.evaluations += 1;
+            ctx.oracle_checks += 1;
+            ctx.count(&format!("case.long-presentation-{}", name));
+            let case = json!({"long_presentation": {"visible_claim_bytes": visible_len, "disclosed_value_bytes": value_len, "disclosures_bound": n_disc, "variant": name, "fmt": fmt.name(), "input_bytes": input.len(), "input_sha256": hash(&input)}});
+            match (&r.out, ok) {
+                (Outcome::Ok(_), true) | (Outcome::Err(_), false) => ctx.nontrivial(&case),
+                (Outcome::Ok(_), false) => ctx.violation("oracle", "verify", &format!("a key-binding JWT made for another disclosure list was accepted on a long presentation ({})", name), case, r.out.class().into(), json!("Err")),
+                (Outcome::Err(_), true) => ctx.violation("oracle", "verify", "an honest key-bound long presentation was rejected", case, r.out.describe(), json!("Ok")),
+                _ => ctx.violation("oracle", "verify", "the verifier panicked or did not return on a long presentation", case, r.out.describe(), json!("Ok or Err")),
+            }
         }
     }
 }
